@@ -536,8 +536,14 @@ Fixpoint chars_handles_ok (cs : list char_decl) (sh : N) : bool :=
   match cs with
   | [] => true
   | c :: t =>
-      (sh <=? ch_decl (select_handles sh c))
-      && (ch_cccd (select_handles sh c) + char_nattrs c <? 65536)
+      let h := select_handles sh c in
+      (sh <=? ch_decl h)                              (* static_assert( declaration_handle >= StartHandle ) *)
+      && (match c_handle c with                      (* static_asserts of attribute_handles<> *)
+          | HThree d v cc => (d <? v) && ((cc =? 0) || (v <? cc))
+          | _ => true
+          end)
+      && (ch_decl h + 2 <? 65536) && (ch_value h + 1 <? 65536)
+      && (ch_cccd h + char_nattrs c <? 65536)
       && chars_handles_ok t (char_end_handle sh c)
   end.
 
